@@ -30,6 +30,7 @@ partial def exprOf : Sexp → Option Expr
   | .list [.atom "and", a, b] => do pure (.and (← exprOf a) (← exprOf b))
   | .list [.atom "or", a, b] => do pure (.or (← exprOf a) (← exprOf b))
   | .list [.atom "sel", c, a, b] => do pure (.sel (← exprOf c) (← exprOf a) (← exprOf b))
+  | .list [.atom "cat", a, w, b] => do pure (.cat (← exprOf a) (← w.asNat?) (← exprOf b))
   | _ => none
 
 def targetOf : Sexp → Option Target
